@@ -32,6 +32,16 @@ pub(super) fn run_write(invocation: ToolInvocation, config: &BuiltinToolConfig) 
     let append = args.append.unwrap_or(false);
     let atomic = args.atomic.unwrap_or(true);
 
+    // A directory is never a write target. Checked before the atomic path creates its temporary
+    // sibling: for an empty or "." path the target is the root itself and that sibling would be
+    // created (and left behind) outside the workspace.
+    if path.is_dir() {
+        return ToolOutput::failure(vec![format!(
+            "write failed: {} is a directory",
+            normalize_rel_path(&config.workspace_root, &path)
+        )]);
+    }
+
     if let Some(parent) = path.parent() {
         if let Err(err) = fs::create_dir_all(parent) {
             return ToolOutput::failure(vec![format!("write failed: {err}")]);
